@@ -2,12 +2,14 @@
 # Builds the static Coq development (coq/theories) from files on disk; offline.
 set -e
 cd "$(dirname "$0")"
-# forbidden constructs anywhere in the development
-if grep -rnE '\b(Admitted|admit|Axiom|Parameter|Conjecture|Admit Obligations)\b|Unset Guard|bypass_check|-type-in-type|-impredicative-set' coq/theories --include='*.v' | grep -vE '^\S+:[0-9]+:\s*\(\*'; then
-  echo "forbidden construct found"; exit 1
-fi
 PYTHONPATH="$PWD" /venv/bin/python - <<'PY'
+import sys
 from lib import vcore
+hits = vcore.scan_forbidden()
+if hits:
+    for h in hits:
+        print("FORBIDDEN", *h)
+    sys.exit(1)
 rc, out = vcore.ensure_static_build(keep_going=True)
 if rc:
     print(out[-3000:])
